@@ -23,6 +23,13 @@ def _sha(b: bytes) -> str:
     return hashlib.sha256(b).hexdigest()[:24]
 
 
+def _scrub(text: str) -> str:
+    """Messages are informational only; addresses in them must not make two logs differ."""
+    import re
+
+    return re.sub(r"0x[0-9a-fA-F]+", "0x?", text)
+
+
 class InjectedFault(RuntimeError):
     """'That callee raised': injected on entry to the k-th traced call."""
 
@@ -90,6 +97,24 @@ class Runtime:
 
     # -------------------------------------------------------------- models
     def load_model_proto(self, m: dict):
+        mp = self._load_model_proto(m)
+        self._in_norm = self._norm(mp)
+        return mp
+
+    @staticmethod
+    def _norm(model):
+        """Digest of the model after a round trip through the IR (so proto- and IR-level results compare)."""
+        import onnx
+        import onnx_ir as ir
+
+        try:
+            if isinstance(model, onnx.ModelProto):
+                model = ir.serde.deserialize_model(model)
+            return _sha(ir.serde.serialize_model(model).SerializeToString(deterministic=True))
+        except Exception:  # noqa: BLE001
+            return None
+
+    def _load_model_proto(self, m: dict):
         import onnx
 
         if m["pool"] == "text":
@@ -216,6 +241,7 @@ class Runtime:
         import onnx
         import onnx_ir as ir
 
+        self._out_norm = self._norm(model)
         if isinstance(model, onnx.ModelProto):
             return _sha(model.SerializeToString(deterministic=True))
         return _sha(ir.serde.serialize_model(model).SerializeToString(deterministic=True))
@@ -396,20 +422,24 @@ class Runtime:
         fn = getattr(self, "op_" + op["kind"])
         if count:
             self.seam.start(None if fault is None else fault["k"])
+        self._in_norm = self._out_norm = None
         try:
             res = fn(op)
             rec["status"] = "ok"
             rec["result"] = res
+            if self._in_norm is not None and self._out_norm is not None:
+                # probe: did the operation change the model at all (rule fired / folded / converted)?
+                rec["changed"] = self._out_norm != self._in_norm
         except InjectedFault as e:
             rec["status"] = "raised"
             rec["result"] = {"exc": "InjectedFault"}
-            rec["exc_text"] = str(e)[:200]
+            rec["exc_text"] = _scrub(str(e))[:200]
         except BaseException as e:  # noqa: BLE001
             if isinstance(e, (KeyboardInterrupt, SystemExit)):
                 raise
             rec["status"] = "raised"
             rec["result"] = {"exc": type(e).__name__}
-            rec["exc_text"] = str(e)[:200]
+            rec["exc_text"] = _scrub(str(e))[:200]
             chain, seen = e, 0
             while chain is not None and seen < 12:
                 if isinstance(chain, InjectedFault):
@@ -467,7 +497,6 @@ def main() -> int:
     repo = env.get("repo", "/repo")
     if repo not in sys.path:
         sys.path.insert(0, repo)
-    sys.dont_write_bytecode = False
     import logging
 
     logging.disable(logging.CRITICAL)
@@ -485,6 +514,10 @@ def main() -> int:
     import onnxscript.rewriter  # noqa: F401
     import onnxscript.rewriter.rules.common  # noqa: F401
     import onnxscript.version_converter  # noqa: F401
+    import onnxscript.rewriter.rules.fusion._gqa  # noqa: F401
+    import onnxscript.rewriter.rules.fusion._layer_norm  # noqa: F401
+    import onnxscript.rewriter.rules.fusion._rms_normalization  # noqa: F401
+    import onnxscript.rewriter.rules.fusion._rotary_embedding  # noqa: F401
 
     rt = Runtime(spec)
     log = []
@@ -525,7 +558,7 @@ def main() -> int:
                 rec["state"] = rt.state_fingerprint()
         log.append(rec)
     payload = json.dumps({"log": log, "hashseed": os.environ.get("PYTHONHASHSEED"),
-                          "sample_id": id(rt) if env.get("report_id") else None}).encode()
+                          "addr_probe": id([None] * 3)}).encode()  # address-space probe: must replay bit-for-bit
     mv = memoryview(payload)
     while mv:
         n = os.write(out_fd, mv)
